@@ -182,8 +182,8 @@ OPC = {'ins': 0, 'rem': 1, 'drop': 2, 'llgr': 3, 'deliver': 4, 'flush': 5, 'regi
 
 # what the code under verification currently does (see Model/ExportTx.v): how PendingTx
 # names an entry, and whether dump/refresh truncate before the visibility filters
-KEYING = 'ById'
-LIMITED = True
+KEYING = 'ByNet'
+LIMITED = False
 
 
 class Prop:
@@ -294,21 +294,48 @@ class Prop:
         return cases
 
     # ---- running
+    # An observation is a pair: [export-level run, session-level run].
+    #  export-level  (export_c01_hx.rs): real Table + process_nlri_change + ExportMap + PendingTx,
+    #                glue transcribed in the harness; every Flush also reports a from-scratch dump
+    #  session-level (event_c01_hx.rs): real TableManager + PeerSession::{on_established,
+    #                handle_prefix_update, do_route_refresh, flush_tx} + PeerCodec on a socket; the
+    #                from-scratch dump (a second on_established) is taken at the end only
+    # The model prints the export-level shape; the session-level shape is a projection of it.
+    @staticmethod
+    def project(o):
+        if o == [-1]:
+            return o
+        return [[3, x[1], x[2], x[3], [x[4][0], x[4][2]]] if x[0] == 3 else x for x in o]
+
     def run_impl(self, cases, tier):
-        return rustrun.daemon_test('C01', 'event::export::verif_hx::c01::verif_export_c01_cases',
-                                   [self.case_to_val(c) for c in cases])
+        vals = [self.case_to_val(c) for c in cases]
+        x, err = rustrun.daemon_test('C01', 'event::export::verif_hx::c01::verif_export_c01_cases', vals)
+        if x is None:
+            return None, err
+        e, err = rustrun.daemon_test('C01e', 'event::verif_hx::c01::verif_event_c01_cases', vals)
+        if e is None:
+            return None, err
+        return [[a, b] for a, b in zip(x, e)], ''
 
     def run_model(self, cases, tier):
         pre = 'From RB Require Import Base.Val Model.ExportTx.\nOpen Scope N_scope.'
-        return coqrun.eval_terms('C01', pre, [self.case_to_coq(c) for c in cases])
+        m, err = coqrun.eval_terms('C01', pre, [self.case_to_coq(c) for c in cases])
+        if m is None:
+            return None, err
+        return [[o, self.project(o)] for o in m], ''
 
     def canon(self, case, obs):
-        if obs == [-1]:
-            return obs
-        return [o for o in obs if o != [0, []]]
+        return [o if o == [-1] else [x for x in o if x != [0, []]] for o in obs]
 
     # ---- Spec oracle on the implementation's observations
     def oracle(self, c, obs):
+        for lvl, o in zip(('export-level', 'session-level'), obs):
+            why = self.oracle1(c, o, lvl == 'session-level')
+            if why:
+                return lvl + ' run, ' + why
+        return None
+
+    def oracle1(self, c, obs, session_level):
         if obs == [-1]:
             return 'panic in the export path'
         established = False
@@ -318,6 +345,8 @@ class Prop:
             if not established:
                 continue            # the property speaks about established neighbours
             if o[0] == 3:
+                if session_level:
+                    continue        # no from-scratch dump at intermediate points of this run
                 chk, pending_empty = o[4], True
             elif o[0] == 6:
                 pending_empty, chk = bool(o[1]), o[2]
@@ -338,6 +367,7 @@ class Prop:
         return False
 
     def nontrivial_key(self, c, obs):
+        obs = obs[0]
         if obs == [-1]:
             return ('panic',)
         fl = [o for o in obs if o[0] == 3]
@@ -359,7 +389,7 @@ class Prop:
         return tags
 
     # ---- shrinking: drop operations while the implementation still fails the oracle
-    def shrink(self, case, why, rounds=60):
+    def shrink(self, case, why, rounds=40):
         cur = case
         for _ in range(rounds):
             cands = []
